@@ -16,4 +16,25 @@ with C.Lock():
     print("lake build: %s in %.0fs" % ("ok" if ok2 else "FAILED", dt))
     if not ok2:
         print(out[-3000:])
+# warm the harness cache (quick-tier configurations), in parallel
+import random
+import concurrent.futures as cf
+import k2, k2check, k3, k5, k6
+import p_c13
+jobs = []
+cfgs = {}
+for pid in ("C02", "C05", "C09", "C10", "C11", "C12", "C17"):
+    rng = random.Random(C.seed() * 1000003 + sum(ord(x) for x in pid))
+    for c in k2check.configs("quick", rng, pid):
+        cfgs.setdefault(c.key(), c)
+with cf.ThreadPoolExecutor(max_workers=15) as ex:
+    futs = [ex.submit(k2.harness_for, c) for c in cfgs.values()]
+    futs += [ex.submit(k3.harness_for, *c) for c in k3.CONFIGS_QUICK]
+    futs += [ex.submit(k5.harness_for, *c) for c in k5.CONFIGS_QUICK]
+    futs.append(ex.submit(k6.harness))
+    futs.append(ex.submit(C.build_harness, "k1_arith", "k1_arith.cc", ["-O1"], "g++", ["translate/arith_shim.cc"]))
+    bad = [f.result()[2][-400:] for f in futs if not f.result()[0]]
+print("harnesses built: %d, failed: %d" % (len(futs), len(bad)))
+for b in bad[:3]:
+    print(b)
 sys.exit(0 if ok2 else 1)
